@@ -123,6 +123,10 @@ def check(run, prog, tier):
     run.trusted_base = ["numpy.fft.fftshift(c*numpy.fft.fftfreq(n,d))[k] = c*(k - n//2)/(n*d)",
                         "numpy.fft: ifft(fft(x)) = x; ifftshift undoes fftshift for every length; "
                         "fftshift is its own inverse only for even lengths"]
+    run.rule("C13-E", "transforms and conjugate axes are computed from the current values and axis (nothing kept across an in-place change of the data)", minimum=4)
+    from . import memorule
+    memorule.check(run, prog, "C13-E", ['quantarhei.core.dfunction.DFunction', 'quantarhei.core.time.TimeAxis', 'quantarhei.core.frequency.FrequencyAxis', 'quantarhei.core.valueaxis.ValueAxis'],
+                   "the transform then is that of earlier values and does not equal the Fourier sum of the current ones")
     run.rule("C13-A", "centred data go through ifftshift -> (i)fft -> fftshift", minimum=8)
     run.rule("C13-B", "forward and backward prefactors multiply to one", minimum=3)
     run.rule("C13-C", "Hermitian extension: index pairs sum to the extended length", minimum=4)
